@@ -49,7 +49,7 @@ CHECKS = {
         technique="TLC bounded enumeration + exhaustive node-list queries through gaftools view; TLC validation against Select",
     ),
     "C05": dict(
-        text="Same sessions; ALL regions (every contig, every 0<=a<=b<contig length) and seeded region pairs are run through gaftools view --region under a per-query alarm; TLC (Check_View.V05) accepts any node set between half-open and closed end semantics and decides selection, order, termination and absence of internal errors. Added by hand: a reference chain of 60 (thorough 130) aligned segments with regions over 49 / 50 / 51 / all indexed nodes.",
+        text="Same sessions; ALL regions (every contig, every 0<=a<=b<contig length) and seeded region pairs are run through gaftools view --region under a per-query alarm; TLC (Check_View.V05) accepts any node set between half-open and closed end semantics and decides selection, order, termination and absence of internal errors. Added by hand: a reference chain of 60 (thorough 75) aligned segments with regions over 49 / 50 / 51 / all indexed nodes.",
         ref="5 C05", note="Trusted: TLC, the BGZF block walker / line splitters in harness/readers.py, pickle. Bounds: reference chain <=3 (quick) / <=4 (thorough) segments of length 1-2, <=2 haplotype segments, walks <=2-3 steps, <=1-2 unaligned nodes; stable files are gaftools' own conversions of the unstable ones. Region end inclusive/exclusive both accepted (DESIGN 7.3).",
         technique="TLC bounded enumeration + exhaustive region queries through gaftools view; TLC validation against Must/May node sets",
     ),
